@@ -644,3 +644,80 @@ func splitGoal(t Term) []Term {
 	}
 	return []Term{t}
 }
+
+
+// callSiteUnit: one obligation per call site of function `key`: the enclosing function must be under a contract that
+// requires the ghost fact `need` (textually: "need(").
+func (e *Engine) callSiteUnit(key, need string) *Unit {
+	u := &Unit{eng: e, name: shortFuncName(key), decls: baseDecls(), heapSort: map[string]string{}, strLits: map[string]Term{}, assumed: map[string]bool{}, inputs: map[string]Term{}}
+	n := 0
+	for _, pth := range sortedKeys(e.pkgs) {
+		p := e.pkgs[pth]
+		for _, f := range p.Syntax {
+			fname := e.fset.Position(f.Pos()).Filename
+			if strings.HasSuffix(fname, "_test.go") {
+				continue
+			}
+			for _, d := range f.Decls {
+				fd, ok := d.(*ast.FuncDecl)
+				if !ok || fd.Body == nil {
+					continue
+				}
+				fo, _ := p.TypesInfo.Defs[fd.Name].(*types.Func)
+				if fo == nil {
+					continue
+				}
+				encl := funcKey(fo)
+				ast.Inspect(fd.Body, func(x ast.Node) bool {
+					call, ok := x.(*ast.CallExpr)
+					if !ok {
+						return true
+					}
+					var id *ast.Ident
+					switch fn := ast.Unparen(call.Fun).(type) {
+					case *ast.Ident:
+						id = fn
+					case *ast.SelectorExpr:
+						id = fn.Sel
+					}
+					if id == nil {
+						return true
+					}
+					callee, ok := p.TypesInfo.ObjectOf(id).(*types.Func)
+					if !ok || funcKey(callee) != key {
+						return true
+					}
+					n++
+					good := false
+					if kc := e.cs.Funcs[key]; kc != nil {
+						for _, a := range strings.Fields(kc.Flags["callers_allow"]) {
+							if strings.HasSuffix(encl, "."+a) || strings.HasSuffix(encl, ")."+a) {
+								good = true
+								u.note("assumptions", "call of "+u.name+" from "+shortFuncName(encl)+" is exempt from the "+need+" requirement (declared server-internal caller)")
+							}
+						}
+					}
+					if c := e.cs.Funcs[encl]; c != nil {
+						for _, r := range c.Requires {
+							if strings.Contains(r.Text, need+"(") {
+								good = true
+							}
+						}
+					}
+					goal := "false"
+					if good {
+						goal = "true"
+					}
+					pos := e.fset.Position(call.Pos())
+					u.obls = append(u.obls, &Obligation{Name: fmt.Sprintf("%s#callsite:%s", u.name, shortFuncName(encl)), Kind: "callsite", Func: u.name, Goal: goal,
+						Where: fmt.Sprintf("%s:%d (call of %s inside %s, which must be under a contract requiring %s)", pos.Filename, pos.Line, u.name, shortFuncName(encl), need), Expect: "unsat"})
+					return true
+				})
+			}
+		}
+	}
+	if n == 0 {
+		u.note("assumptions", "no call site of "+u.name+" found in the loaded packages")
+	}
+	return u
+}
